@@ -232,7 +232,10 @@ def run(ck):
                       "other region / gaps ttl-step, ttl, ttl+step / already hosting / unknown-region) x 2 region patterns x defined size in "
                       "{members-1 (surplus member), members} (quick: every multiset with a healthy majority, a PRNG sample of the others); plus PRNG contexts with 1..4 shards sharing 3..8 "
                       "NodeHosts, kill lists, undefined shards; scripted random source incl. id 0 and an id collision; plus contexts computed by the REAL DB "
-                      "(db engine) from report sequences where a member's NodeHost stops listing the shard and the member must be replaced (DB -> scheduler pipeline). "
+                      "(db engine) from report sequences where a member's NodeHost stops listing the shard and the member must be replaced (DB -> scheduler pipeline); "
+                      "in these the failing member often carries the view's leader flag (nobody else claims leadership afterwards) and the NodeHost's ShardIdList "
+                      "names shards unknown to the view (as many as / more / fewer than the managed shards) instead of the omitted one; monitors also against the "
+                      "report history (recipient runs a member reported within the timeout; hosted-shards set of every NodeHost record = own list + view members). "
                       "Non-trivial = the round produced a request, an error or a panic; distinct by md5 of the context line.")
     import time
     t0 = time.time()
